@@ -14,13 +14,19 @@ import (
 // fair schedule: all internal events in canonical order until quiescence, then
 // (if the goal is not reached) one election timeout, round-robin over the
 // eligible nodes.  It returns "" when the goal was reached, else a description.
-func fairContinuation(s *simState, maxRounds int) (rounds int, problem string) {
+func fairContinuation(s *simState, maxRounds int, exclude int) (rounds int, problem string) {
 	w := s.w
-	// faults stop
+	// faults stop (except that node `exclude`, if any, stays away: kept down, or cut off from everybody)
 	for k := range w.blocked {
 		_ = s.apply(simEvent{K: "PH", N: k[0], A: k[1]}, true)
 	}
+	if exclude >= 0 && w.nodes[exclude].up {
+		s.isolate(w.nodes[exclude])
+	}
 	for _, n := range w.nodes {
+		if n.idx == exclude {
+			continue
+		}
 		if !n.up && n.r != nil && !n.dead && n.serveErr != ErrNodeRemoved {
 			if err := s.apply(simEvent{K: "S", N: n.idx}, true); err != nil {
 				return 0, "restart failed: " + err.Error()
@@ -48,7 +54,7 @@ func fairContinuation(s *simState, maxRounds int) (rounds int, problem string) {
 		// one timeout: prefer a transfer/new-term timer of a leader, else an election timeout
 		fired := false
 		for _, n := range w.nodes {
-			if n.up && n.r.state == Leader && n.r.ldr.transfer.timer.active {
+			if n.up && n.idx != exclude && n.r.state == Leader && n.r.ldr.transfer.timer.active {
 				if err := s.apply(simEvent{K: "T", N: n.idx, S: "transfer"}, true); err != nil {
 					return rounds, err.Error()
 				}
@@ -59,14 +65,14 @@ func fairContinuation(s *simState, maxRounds int) (rounds int, problem string) {
 		if !fired {
 			var elig []*simNode
 			for _, n := range w.nodes {
-				if n.up && n.r.timer.active && n.r.state != Leader {
+				if n.up && n.idx != exclude && n.r.timer.active && n.r.state != Leader {
 					elig = append(elig, n)
 				}
 			}
 			if len(elig) == 0 {
 				// a leader waiting for a quorum: let its timer expire
 				for _, n := range w.nodes {
-					if n.up && n.r.timer.active {
+					if n.up && n.idx != exclude && n.r.timer.active {
 						elig = append(elig, n)
 					}
 				}
@@ -115,9 +121,10 @@ func (s *simState) runFreeAll(limit int) error {
 // and a fresh update gets committed and applied everywhere.
 func progressGoal(s *simState, probe *int) (bool, string) {
 	w := s.w
+	exclude := s.exclude
 	var ldr *simNode
 	for _, n := range w.nodes {
-		if n.up && n.r.state == Leader {
+		if n.up && n.idx != exclude && n.r.state == Leader {
 			if ldr != nil && ldr.r.term >= n.r.term {
 				continue
 			}
@@ -129,7 +136,7 @@ func progressGoal(s *simState, probe *int) (bool, string) {
 	}
 	r := ldr.r
 	for _, n := range w.nodes {
-		if n.up && n != ldr && n.r.state == Leader {
+		if n.up && n != ldr && n.idx != exclude && n.r.state == Leader {
 			return false, fmt.Sprintf("two nodes in leader state (%d term %d, %d term %d)", ldr.id, r.term, n.id, n.r.term)
 		}
 	}
@@ -145,7 +152,7 @@ func progressGoal(s *simState, probe *int) (bool, string) {
 		}
 		for id := range r.configs.Latest.Nodes {
 			n := w.nodes[id-1]
-			if !n.up {
+			if !n.up || n.idx == exclude {
 				continue
 			}
 			fr := n.r
@@ -196,42 +203,62 @@ func init() {
 		if sc.Final != "progress" {
 			return finalShutdown(sc, hist)
 		}
-		s, err := replayHist(sc, hist)
-		defer s.close()
-		if err != nil {
-			return nil
-		}
-		// precondition: a majority of the voters of the newest configuration known anywhere can run
-		var newest Config
-		for _, n := range s.w.nodes {
-			if n.r != nil && n.r.configs.Latest.Index >= newest.Index {
-				newest = n.r.configs.Latest
-			}
-		}
-		alive := 0
-		for id, nd := range newest.Nodes {
-			if nd.Voter && !s.w.nodes[id-1].dead && s.w.nodes[id-1].serveErr != ErrNodeRemoved {
-				alive++
-			}
-		}
-		if alive < newest.quorum() {
-			return nil
-		}
-		nv := len(s.w.led.viol)
-		maxRounds := 40
-		rounds, problem := fairContinuation(s, maxRounds)
 		var out []simViolation
-		if problem != "" {
-			key := "no-progress"
-			if len(problem) > 5 && problem[:5] == "lasso" {
-				key = "no-progress-lasso"
+		// variants: everybody comes back; or one node stays away (down / cut off) while the rest is a majority
+		nn := sc.Opt.Nodes
+		for exclude := -1; exclude < nn; exclude++ {
+			s, err := replayHist(sc, hist)
+			if err != nil {
+				s.close()
+				return out
 			}
-			out = append(out, simViolation{Oracle: "progress", Key: key, Desc: fmt.Sprintf("fair continuation after %v: %s", histStrings(hist), problem)})
-		}
-		_ = rounds
-		// safety oracles keep running during the continuation
-		for _, v := range s.w.led.viol[nv:] {
-			out = append(out, v)
+			// precondition: a majority of the voters of the newest configuration known anywhere can run
+			var newest Config
+			for _, n := range s.w.nodes {
+				if n.r != nil && n.r.configs.Latest.Index >= newest.Index {
+					newest = n.r.configs.Latest
+				}
+			}
+			alive := 0
+			for id, nd := range newest.Nodes {
+				if nd.Voter && int(id-1) != exclude && !s.w.nodes[id-1].dead && s.w.nodes[id-1].serveErr != ErrNodeRemoved {
+					alive++
+				}
+			}
+			if exclude >= 0 {
+				if _, member := newest.Nodes[uint64(exclude+1)]; !member {
+					s.close()
+					continue
+				}
+			}
+			if alive < newest.quorum() {
+				s.close()
+				continue
+			}
+			s.exclude = exclude
+			nv := len(s.w.led.viol)
+			_, problem := fairContinuation(s, 40, exclude)
+			if problem != "" {
+				key := "no-progress"
+				if len(problem) > 5 && problem[:5] == "lasso" {
+					key = "no-progress-lasso"
+				}
+				who := "all nodes back"
+				if exclude >= 0 {
+					who = fmt.Sprintf("node %d staying away", exclude+1)
+					key += ":one-node-away"
+				}
+				out = append(out, simViolation{Oracle: "progress", Key: key, Desc: fmt.Sprintf("fair continuation (%s) after %v: %s", who, histStrings(hist), problem), Full: append([]simEvent(nil), s.hist...)})
+			}
+			// safety oracles keep running during the continuation
+			for _, v := range s.w.led.viol[nv:] {
+				v.Full = append([]simEvent(nil), s.hist...)
+				out = append(out, v)
+			}
+			s.close()
+			if len(out) > 0 {
+				break
+			}
 		}
 		return out
 	}
@@ -244,11 +271,12 @@ func progressScenarios(tier string) []*simScenario {
 	}
 	bases := []*simScenario{
 		scenElect([]uint64{1, 2, 3}, nil, 3, dev, 1),
-		scenRepl(replSeeds[1], dev, true, 1, 1, 4),
-		scenRepl(replSeeds[3], dev, true, 1, 1, 4),
+		scenRepl(replSeedByName("isolated-tail"), dev, true, 1, 1, 4),
+		scenRepl(replSeedByName("divergent"), dev, true, 1, 1, 4),
+		scenRepl(replSeedByName("longtail"), dev, true, 1, 1, 4),
 		scenMember(memberSeeds[0], dev, 1, 0, true, nil, 0),
 		scenMember(memberSeeds[3], dev, 1, 0, true, nil, 0),
-		scenSnap(snapSeeds[1], dev, true, true, 1),
+		scenSnap(snapSeeds[snapSeedIndex("lagging")], dev, true, true, 1),
 		scenTransfer(xferSeeds[0], dev, true),
 	}
 	var out []*simScenario
